@@ -10,4 +10,5 @@ import Cppcms.C04.LemGood
 import Cppcms.C04.LemRuleLoop
 import Cppcms.C04.LemSecondRun
 import Cppcms.C04.LemStable
+import Cppcms.C04.LemHtml
 /-! C04 helper lemmas (aggregator).  The parts live in `Lem*.lean`; none imports Mathlib. -/
